@@ -313,6 +313,7 @@ func (n *node) checkAlwaysSucceedsRecursion(t *Tree, visited map[*node]bool) boo
 type Tree struct {
 	Rules      map[string]*node
 	rulesCount map[string]uint
+	undefined  map[string]bool
 	node
 	inline, _switch, Ast bool
 	Strict               bool
@@ -342,6 +343,7 @@ func New(inline, _switch, noast bool) *Tree {
 	return &Tree{
 		Rules:      make(map[string]*node),
 		rulesCount: make(map[string]uint),
+		undefined:  make(map[string]bool),
 		inline:     inline,
 		_switch:    _switch,
 		Ast:        !noast,
@@ -564,6 +566,7 @@ func (t *Tree) link(countsForRule *[TypeLast]uint, n *node, counts *[TypeLast]ui
 			t.RulesCount++
 
 			t.Rules[name] = emptyRule
+			t.undefined[name] = true
 			t.RuleNames = append(t.RuleNames, emptyRule)
 			*countsByRule = append(*countsByRule, &[TypeLast]uint{})
 		}
@@ -1275,7 +1278,7 @@ func (t *Tree) Compile(file string, args []string, out io.Writer) (err error) {
 			continue
 		}
 		expression := element.Front()
-		if implicit := expression.Front(); expression.GetType() == TypeNil || implicit.GetType() == TypeNil {
+		if expression.GetType() == TypeNil || t.undefined[element.String()] {
 			if element.String() != "PegText" {
 				t.warn(fmt.Errorf("rule '%v' used but not defined", element))
 			}
